@@ -39,6 +39,15 @@ def with_mutants(bases, mutate):
     return dedupe(out)
 
 
+def with_mutants2(values, twice):
+    """values, then all edit-distance-2 mutants of the (short) strings in `twice`."""
+    out = list(values)
+    for b in twice:
+        for m in dedupe(mutants(b)):
+            out.extend(mutants(m))
+    return dedupe(out)
+
+
 def lists(atoms, depth, seps):
     """All sequences of 1..depth atoms; sequences of length 2 with every separator, longer ones with seps[0]."""
     out = list(atoms)
